@@ -84,4 +84,20 @@ PROPS["C13"] = {
     "assumptions": ["the connection is closed after the sequence (the property's quantifier)"],
 }
 
+PROPS["C15"] = {
+    "level_text": "PARTIAL. Theorems (Lean 4, every well-formed trace of any length with any number of threads and mutexes): two accesses to a location made while holding the same mutex are ordered by happens-before (program order, release->acquire, spawn, transitively); a write made before the `go` statement that starts its readers is ordered before all their accesses; accesses of one goroutine are ordered; the mixed owner-or-guarded discipline of clientStream.header orders every conflicting pair. The access table - every syntactic access to the tracked fields of RpcMultiplexer, clientStream, serverStream, unaryServerTransportStream, handler, Proxy, proxyClient, Demux, GoatOverHttp, httpReadWriter, with the mutexes syntactically held - is regenerated from /repo on every run and `decide` proves that each access follows its field's discipline and every ...Locked function is called with the owner's mutex held. The search for a counterexample is the race detector over the workloads of the other properties. What is missing: the Go memory model itself, channels/contexts/sync.* as synchronisation, fields and closures outside the table, third-party packages.",
+    "level_note": "Trusted: Lean kernel; extractor (syntactic lockset analysis: Lock/Unlock/defer Unlock in source order, closures start with nothing held); the race detector as the search. A race report with goat frames is a violation with the report as the replay.",
+    "technique": "Lean 4 proof (lock discipline => happens-before, induction on trace distance) + access table regenerated from source and checked by decide + race detector as counterexample search",
+    "props": ["Goat.Props.C15"],
+    "tie": ["Goat.Tie.C15"],
+    "harness": False,
+    "race": True,
+    "race_quick": True,
+    "race_procs": {"quick": [0], "thorough": [1, 2, 4, 16]},
+    "rule": "one execution = one scenario instance of another property's workload run under the race detector; distinct non-trivial = number of distinct workload families run (C01-C04, C06, C07, C09-C11, C13, C14, C16-C18, C20 as far as registered)",
+    "partial": "lock discipline in an abstract memory model; Go memory model, channels and contexts as synchronisation, untracked fields and third-party code are not modelled",
+    "modelled_not_verified": COMMON_MNV + ["the Go memory model"],
+    "assumptions": [],
+}
+
 NOT_YET = {}
